@@ -93,6 +93,14 @@ def main(tier: str, selftest_cases: int = 0) -> int:
             "lexer type": a.lexer_type == b.lexer_type, "start symbols": a.start == b.start,
             "options": a.option_subset == b.option_subset,
             "rule list (callbacks)": a.rule_list == b.rule_list and not a.rules_referenced_but_unlisted}
+    # options that differ only in regex flags are decided by the terminal languages below, which are
+    # taken under those flags
+    differing = sorted(k for k in a.option_subset if a.option_subset.get(k) != b.option_subset.get(k))
+    flags_only = bool(differing) and set(differing) <= {"g_regex_flags"}
+    if flags_only:
+        side["options"] = True
+        rep.coverage["regex_flags"] = {"shipped": a.option_subset.get("g_regex_flags"),
+                                       "grammar": b.option_subset.get("g_regex_flags")}
     for k, ok in side.items():
         rep.ob("unsat" if ok else "sat", f"side-condition:{k}", ("side", k))
         if not ok:
